@@ -42,6 +42,21 @@ def t3_write(sx, nbr, nbw, nmaxb, oldlens, lens, emulated):
     return ndefflow.roundtrip(sx, w, n, prop="C03")
 
 
+def t4_write(sx, ver, mle, mlc, mfs, oldlens, lens, typ, fsci):
+    oldlen = sx.pick("oldlen", oldlens)
+    w = worlds.T4World(sx, ver, sx.int("mle", mle[0], mle[1]), sx.int("mlc", mlc[0], mlc[1]),
+                       mfs, oldlen, typ=typ, fsci=fsci)
+    n = sx.pick("n", [x for x in lens_for(w.cap, lens) if x <= w.cap])
+    return ndefflow.roundtrip(sx, w, n, prop="C03")
+
+
+def t4_format(sx, ver, mle, mlc, mfs, oldlens, wipe, typ, fsci):
+    oldlen = sx.pick("oldlen", oldlens)
+    w = worlds.T4World(sx, ver, sx.int("mle", mle[0], mle[1]), sx.int("mlc", mlc[0], mlc[1]),
+                       mfs, oldlen, typ=typ, fsci=fsci)
+    return ndefflow.formatflow(sx, w, wipe)
+
+
 T1 = [("topaz", (0x11, 0x48), 120, "", []),
       ("static", (0x11, 0x00), 120, "N", []),
       ("static-m", (0x11, 0x48), 120, "M", [(40, 8)]),
@@ -67,6 +82,14 @@ def partitions(tier):
                                           lens=[3, 254, 255, "cap"], long=True)))
             parts.append(dict(name="t2:%d:%s:format" % (S, prefix or "-"), fn="t2_format",
                               params=dict(S=S, prefix=prefix, rsv=rsv, oldlens=[0, 255], wipe=1)))
+    for ver, typ, fsci in [(0x20, "A", 8), (0x30, "B", 5)]:
+        parts.append(dict(name="t4:%02x:%s:write" % (ver, typ), fn="t4_write",
+                          params=dict(ver=ver, mle=[15, 0xFFFF], mlc=[1, 0xFFFF], mfs=16,
+                                      oldlens=[0, 3], lens=[0, 1, 7, "cap"], typ=typ, fsci=fsci)))
+        for wipe in (None, 1):
+            parts.append(dict(name="t4:%02x:%s:format:%s" % (ver, typ, wipe), fn="t4_format",
+                              params=dict(ver=ver, mle=[15, 0xFFFF], mlc=[1, 0xFFFF], mfs=16,
+                                          oldlens=[0, 3], wipe=wipe, typ=typ, fsci=fsci)))
     for emulated in (False, True):
         for nbr, nbw, nmaxb in [(1, 1, 1), (4, 3, 5), (15, 13, 14), (3, 2, 4)]:
             parts.append(dict(name="t3%s:%d:%d:%d:write" % ("emu" if emulated else "", nbr, nbw, nmaxb),
